@@ -152,7 +152,11 @@ def compare_model(m, spec, rng, counters, bad, n_points=3, evaluators=("ode", "v
         for name in evaluators:
             try:
                 with contextlib.redirect_stdout(io.StringIO()):
-                    got = np.asarray(getattr(m, name)(np.array(x, dtype=float), t), dtype=float)
+                    if name == "ode" and rng.random() < 0.4:
+                        got = np.asarray(m.ode_T(t, np.array(x, dtype=float)), dtype=float)     # the t-first twin
+                        counters["t_first_twin_calls"] = counters.get("t_first_twin_calls", 0) + 1
+                    else:
+                        got = np.asarray(getattr(m, name)(np.array(x, dtype=float), t), dtype=float)
             except Exception as e:
                 bad("%s(x,t) raised" % name, error=short_exc(e), tb=tb_tail(e), x=x, t=t, theta=th)
                 continue
